@@ -260,9 +260,9 @@ func c42RunSpec(cx *c42Ctx, sp vopSpec, envName, etcdEndpoint string) (out c42Re
 		if run == 0 {
 			continue
 		}
-		if k, path, differs := vopDiff(snaps[run-1], snap); differs {
-			add(fmt.Sprintf("changed-on-reconcile-again:%s:%s", role(k), path),
-				"reconcile #%d of the unchanged cluster changed %s at %s\n before: %s\n after:  %s\n spec: %s", run+1, k, path, c42Clip(snaps[run-1][k]), c42Clip(snap[k]), specStr)
+		if df, differs := vopDiff(snaps[run-1], snap); differs {
+			add(fmt.Sprintf("changed-on-reconcile-again:%s:%s", role(df.Key), df.Path),
+				"reconcile #%d of the unchanged cluster changed %s at %s: before %s, after %s; spec: %s", run+1, df.Key, df.Path, df.Before, df.After, specStr)
 		}
 		for _, w := range writes {
 			if w.Kind == "KafscaleCluster" {
@@ -276,32 +276,54 @@ func c42RunSpec(cx *c42Ctx, sp vopSpec, envName, etcdEndpoint string) (out c42Re
 	out.objects = len(snaps[0])
 
 	// fresh API servers: the render must depend only on the cluster resource and the environment
-	for k := 1; k < c42FreshRenders; k++ {
+	fresh := func(bystanders bool) (map[string]string, bool) {
 		var extra []client.Object
 		var skip map[string]bool
-		label := "render-differs-between-fresh-servers"
-		if k == c42FreshRenders-1 {
+		if bystanders {
 			extra, skip = c42Bystanders(sp)
-			label = "render-depends-on-bystander-objects"
 		}
 		fs := c42NewServer(cx, vopCluster(sp, etcdEndpoint), extra...)
 		_, err, pan := fs.reconcile(cx, sp, live)
 		if pan != "" || err != nil {
-			out.note = fmt.Sprintf("fresh render %d: err=%v panic=%s", k+1, err, pan)
+			out.note = fmt.Sprintf("fresh render: err=%v panic=%s", err, pan)
 			out.sig = "fresh-render-error"
-			return
+			return nil, false
 		}
 		snap, serr := vopSnapshot(fs.c, cx.scheme, cx.kinds, skip)
 		if serr != nil {
 			out.note = "snapshot: " + serr.Error()
 			out.sig = "harness-snapshot-error"
+			return nil, false
+		}
+		return snap, true
+	}
+	for k := 1; k < c42FreshRenders; k++ {
+		bystanders := k == c42FreshRenders-1
+		snap, ok := fresh(bystanders)
+		if !ok {
 			return
 		}
-		if key, path, differs := vopDiff(snaps[0], snap); differs {
-			add(fmt.Sprintf("%s:%s:%s", label, role(key), path),
-				"fresh render %d of the same cluster resource and environment differs from render 1 in %s at %s\n first: %s\n this:  %s\n spec: %s", k+1, key, path, c42Clip(snaps[0][key]), c42Clip(snap[key]), specStr)
-			break
+		df, differs := vopDiff(snaps[0], snap)
+		if !differs {
+			continue
 		}
+		label := "render-differs-between-fresh-servers"
+		if bystanders {
+			// bystander dependence only if it reproduces: two more bystander renders must both differ from render 1
+			label = "render-depends-on-bystander-objects"
+			for i := 0; i < 2; i++ {
+				again, ok := fresh(true)
+				if !ok {
+					return
+				}
+				if _, d := vopDiff(snaps[0], again); !d {
+					label = "render-differs-between-fresh-servers"
+				}
+			}
+		}
+		add(fmt.Sprintf("%s:%s:%s", label, role(df.Key), df.Path),
+			"fresh render %d of the same cluster resource and environment differs from render 1 in %s at %s: first %s, this %s; spec: %s", k+1, df.Key, df.Path, df.Before, df.After, specStr)
+		break
 	}
 
 	// outcome signature: digest of the rendered object set (roles + bodies)
@@ -318,13 +340,6 @@ func c42RunSpec(cx *c42Ctx, sp vopSpec, envName, etcdEndpoint string) (out c42Re
 	out.sig = fmt.Sprintf("env=%s objects=%d digest=%x", envName, len(keys), h.Sum(nil)[:8])
 	out.nontrivial = sp.Etcd != "spec" || sp.Lfs != 0 || sp.Service != 0 || sp.Resources || sp.Config || sp.ReadRepl || sp.S3 != 0 || sp.AdvHost != "" || sp.AdvPort != nil || sp.Replicas != nil || envName != "default"
 	return
-}
-
-func c42Clip(s string) string {
-	if len(s) > 700 {
-		return s[:700] + "…"
-	}
-	return s
 }
 
 func c42Describe(sp vopSpec) map[string]any {
